@@ -315,9 +315,5 @@ End Reader.
 (* the instance used by `run`: dns.rdatatype.from_text raises UnknownRdatatype or ValueError only *)
 Lemma type_from_text_run_lib v e : type_from_text_run v = Lib e -> e = eUnknownRdatatype.
 Proof.
-  unfold type_from_text_run, enum_from_text. cbv zeta.
-  destruct (assoc _ _); [discriminate|].
-  destruct (strip_prefix _ _) as [d|]; [|intros H; inversion H; reflexivity].
-  destruct (all_decimal d); [|intros H; inversion H; reflexivity].
-  destruct (dec_value d >? 65535); discriminate.
+  unfold type_from_text_run. destruct (RdTextM.rdtype_from_text v); intros H; inversion H; reflexivity.
 Qed.
